@@ -1,5 +1,6 @@
 # C17 (addition) -- Michael's CAS-based lock-free deque, pika/concurrency/deque.hpp.
 # Defines DEQUE_UNITS / DEQUE_META; merged into specs/C17/spec.py by the maintainer (UNITS += DEQUE_UNITS, META lists extended).
+# Templates: deque.c (step contracts + bounded sequential stand-in), deque_lemma.c (lemma harness), deque.h (types, transitions, invariants).
 from vx.lift import Lift, Sub, Call
 from vx.run import Unit
 
@@ -85,52 +86,48 @@ __CPROVER_loop_invariant(NOREF(g_q.anchor_, n))
 """ % LOOP_GHOSTS
 
 
-def deque_lifts(loops_pop=None, loops_push=None, which=()):
-    d = {
+def deque_lifts(contracts=True):
+    """all functions are lifted into every unit (one template, no inactive blocks); contracts=False: no loop contracts
+    (bounded units unwind the loops instead)"""
+    lp = {1: LOOP_POP, "count": 1} if contracts else {"count": 1}
+    lq = {1: LOOP_PUSH, "count": 1} if contracts else {"count": 1}
+    return {
         "dealloc_node": DEALLOC,
-        "stabilize_left": _lift(r"void stabilize_left\(anchor_pair& lrs\)"),
-        "stabilize_right": _lift(r"void stabilize_right\(anchor_pair& lrs\)"),
-        "stabilize": _lift(r"void stabilize\(anchor_pair& lrs\)"),
+        "stabilize_left": _lift(r"void stabilize_left\(anchor_pair& lrs\)", loops={"count": 0}),
+        "stabilize_right": _lift(r"void stabilize_right\(anchor_pair& lrs\)", loops={"count": 0}),
+        "stabilize": _lift(r"void stabilize\(anchor_pair& lrs\)", loops={"count": 0}),
+        "pop_left": _lift(r"bool pop_left\(T& r\)", loops=lp),
+        "pop_right": _lift(r"bool pop_right\(T& r\)", loops=lp),
+        "push_left": _lift(r"bool push_left\(T data\)", loops=lq),
+        "push_right": _lift(r"bool push_right\(T data\)", loops=lq),
+        "empty": _lift(r"bool empty\(\) const", loops={"count": 0}),
     }
-    if "pop_left" in which:
-        d["pop_left"] = _lift(r"bool pop_left\(T& r\)", loops=loops_pop)
-    if "pop_right" in which:
-        d["pop_right"] = _lift(r"bool pop_right\(T& r\)", loops=loops_pop)
-    if "push_left" in which:
-        d["push_left"] = _lift(r"bool push_left\(T data\)", loops=loops_push)
-    if "push_right" in which:
-        d["push_right"] = _lift(r"bool push_right\(T data\)", loops=loops_push)
-    if "empty" in which:
-        d["empty"] = _lift(r"bool empty\(\) const")
-    return d
 
 
-_POP = {1: LOOP_POP, "count": 1}
-_PUSH = {1: LOOP_PUSH, "count": 1}
 _F = DQ + ": deque::"
 
 DEQUE_UNITS = [
     Unit("deque.pop_left", "deque.c", defines=["U_POP_LEFT"], enforce="pop_left", replace=["stabilize"],
-         lifts=deque_lifts(loops_pop=_POP, which=["pop_left"]), min_obligations=60,
+         lifts=deque_lifts(), min_obligations=60,
          funcs=[_F + "pop_left, stabilize, stabilize_left, stabilize_right, dealloc_node"],
          doc="every successful anchor CAS of pop_left is a helping stabilize step or THE pop step, taken only from a stable anchor"),
     Unit("deque.pop_right", "deque.c", defines=["U_POP_RIGHT"], enforce="pop_right", replace=["stabilize"],
-         lifts=deque_lifts(loops_pop=_POP, which=["pop_right"]), min_obligations=60,
+         lifts=deque_lifts(), min_obligations=60,
          funcs=[_F + "pop_right, stabilize, stabilize_left, stabilize_right, dealloc_node"]),
     Unit("deque.push_left", "deque.c", defines=["U_PUSH_LEFT"], enforce="push_left", replace=["stabilize", "stabilize_left"],
-         lifts=deque_lifts(loops_push=_PUSH, which=["push_left"]), min_obligations=60,
+         lifts=deque_lifts(), min_obligations=60,
          funcs=[_F + "push_left, stabilize, stabilize_left, stabilize_right"]),
     Unit("deque.push_right", "deque.c", defines=["U_PUSH_RIGHT"], enforce="push_right", replace=["stabilize", "stabilize_right"],
-         lifts=deque_lifts(loops_push=_PUSH, which=["push_right"]), min_obligations=60,
+         lifts=deque_lifts(), min_obligations=60,
          funcs=[_F + "push_right, stabilize, stabilize_left, stabilize_right"]),
     Unit("deque.stabilize_left", "deque.c", defines=["U_STABILIZE_LEFT"], enforce="stabilize_left",
-         lifts=deque_lifts(), min_obligations=30, funcs=[_F + "stabilize_left"]),
+         lifts=deque_lifts(), loop_contracts=False, min_obligations=30, funcs=[_F + "stabilize_left"]),
     Unit("deque.stabilize_right", "deque.c", defines=["U_STABILIZE_RIGHT"], enforce="stabilize_right",
-         lifts=deque_lifts(), min_obligations=30, funcs=[_F + "stabilize_right"]),
+         lifts=deque_lifts(), loop_contracts=False, min_obligations=30, funcs=[_F + "stabilize_right"]),
     Unit("deque.stabilize", "deque.c", defines=["U_STABILIZE"], enforce="stabilize",
-         lifts=deque_lifts(), min_obligations=30, funcs=[_F + "stabilize"]),
+         lifts=deque_lifts(), loop_contracts=False, min_obligations=30, funcs=[_F + "stabilize"]),
     Unit("deque.empty", "deque.c", defines=["U_EMPTY"], enforce="empty",
-         lifts=deque_lifts(which=["empty"]), funcs=[_F + "empty"]),
+         lifts=deque_lifts(), loop_contracts=False, funcs=[_F + "empty"]),
 ]
 
 DEQUE_UNITS += [
@@ -141,17 +138,106 @@ DEQUE_UNITS += [
              "on the abstract sequence; every anchor step changes the word (guarantee within rely)"),
 ]
 
-DEQUE_UNITS += [
-    Unit("deque.seq.b4", "deque.c", defines=["U_SEQ"], kind="bounded", unwind=2, loop_contracts=False, no_replay=True,
-         extra_flags=["--unwindset", "harness.0:257,run_sequence.0:5,run_sequence.1:5"],
-         lifts=deque_lifts(which=["pop_left", "pop_right", "push_left", "push_right", "empty"]),
-         funcs=[_F + "push_left, push_right, pop_left, pop_right, stabilize, stabilize_left, stabilize_right, dealloc_node, empty"],
-         doc="BOUNDED, single thread, no interference: all operation sequences of length <= 4 plus drain, array-backed LIFO freelist of "
-             "4 nodes, against an array model: per-end order, nothing invented, pop on non-empty succeeds, drained => empty"),
+_OPS = ["push_left", "push_right", "pop_left", "pop_right"]
+for _k in range(16):
+    _a, _b = _OPS[_k & 3], _OPS[_k >> 2]
+    DEQUE_UNITS.append(
+        Unit("deque.seq.b4.%s.%s" % (_a, _b), "deque.c", defines=["U_SEQ", "SEQ_FIRST2=%du" % _k], kind="bounded", unwind=2,
+             loop_contracts=False, no_replay=True, object_bits=11,
+             extra_flags=["--unwindset", "harness.0:17,run_sequence.0:5,run_sequence.1:5"],
+             lifts=deque_lifts(contracts=False),
+             funcs=[_F + "push_left, push_right, pop_left, pop_right, stabilize, stabilize_left, stabilize_right, dealloc_node, empty"],
+             doc="BOUNDED, single thread, no interference: the 16 operation sequences of length 4 that start with %s; %s (their prefixes "
+                 "are the shorter sequences), each followed by a drain from the left and by a drain from the right; array-backed LIFO "
+                 "freelist of 4 nodes; checked against an array model: per-end order, nothing invented, pop on non-empty succeeds, "
+                 "drained => empty" % (_a, _b)))
+
+# ---- node-link ABA tag across recycling: A-ABA-node as an obligation on alloc_node and the link stores of push_* ----
+ALLOC_RULES = [
+    Sub(r"\bnode\* (\w+) =", r"struct node *\1 =", 1),
+    Call(r"\bpool_\.allocate", "pool_allocate(self)", 1),
+    Sub(r"\bthrow std::bad_alloc\(\);", "return vx_throw_bad_alloc();", 1),
+    Call(r"\bnew \((\w+)\) node", "node_construct({h1}, {0}, {1}, {2}, {3}, {4})", 1),
+    Call(_LINK + r"\.load", "node_load(self, &{h1})", None),
+    Sub(r"\.get_tag\(\)", ".tag", None),
+    Sub(r"\.get_ptr\(\)", ".ptr", None),
 ]
+STORE_RULES = [
+    Sub(r"\.get_(left|right)_ptr\(\)", r".\1", None),
+    Sub(r"\.get_left_tag\(\)", ".ltag", None),
+    Sub(r"\.get_right_tag\(\)", ".rtag", None),
+    Sub(r"\.get_ptr\(\)", ".ptr", None),
+    Sub(r"\.get_tag\(\)", ".tag", None),
+    Call(r"\bnode_pointer", _tptr, "+"),
+    Call(_LINK + r"\.load", "node_load(self, &{h1})", None),
+    Call(_LINK + r"\.store", "node_store(self, &{h1}, {0})", 1),
+]
+DEQUE_UNITS.append(
+    Unit("deque.alloc.link_tags", "deque_alloc.c", kind="proof", loop_contracts=False, min_obligations=8,
+         lifts={
+             "alloc_copy": Lift(DQ, r"node\* alloc_node\(node\* lptr, node\* rptr, T const& v", rules=ALLOC_RULES, loops={"count": 0}),
+             "alloc_move": Lift(DQ, r"node\* alloc_node\(node\* lptr, node\* rptr, T&& v", rules=ALLOC_RULES, loops={"count": 0}),
+             "store_right_link": Lift(DQ, r"\bn->right\.store\(", fragment_end=r";", rules=STORE_RULES),
+             "store_left_link": Lift(DQ, r"\bn->left\.store\(", fragment_end=r";", rules=STORE_RULES),
+         },
+         funcs=[_F + "alloc_node (both overloads), push_left: n->right.store(...), push_right: n->left.store(...)"],
+         doc="A-ABA-node as an obligation: the link words alloc_node and push_left/push_right give a recycled node continue the "
+             "tag of the word the cell's link held before (+1), so no (ptr, tag) word can reappear in a link; "
+             "-DKF_NODES_NOT_RECYCLED = the freelist only hands out never-used cells"))
 
 DEQUE_META = {
-    "trusted_base": [],
-    "assumptions": [],
-    "not_decided": [],
+    "trusted_base": [
+        "specs/C17/deque.c anchor_load/anchor_ne/anchor_cas: deque_anchor (std::atomic<tagged_ptr_pair>) modelled as the unpacked record "
+        "{left, right, status, tag} with an indivisible load / compare / 128-bit compare_exchange_strong (packing proved by tpp.*); "
+        "node_load/node_cas/node_store: std::atomic<tagged_ptr<node>> modelled as {ptr, 16-bit tag}, indivisible",
+        "specs/C17/deque.c interfere() = the RELY, run before every shared access: (a) the anchor moved on: anchor and every link of every "
+        "pool node are arbitrary within the ends-only representation invariant S_OK (justified by deque.lemma.steps: every step keeps the "
+        "full invariant, which implies S_OK), restricted by A-ABA, A-ABA-node, A-OWN; (b) the anchor stayed: the only node-level write by "
+        "another thread is the back-link fix of stabilize (links of nodes outside the chain are not tracked)",
+        "A-ABA (VX_ASSUME in interfere): the anchor never comes back to the 128-bit word this call last observed (ABA tag sufficient)",
+        "A-ABA-node (VX_ASSUME in interfere): once an unstable anchor this call observed has moved on, the back link this call read as "
+        "missing no longer holds the stale (ptr, tag) word it read (follows from the asserted guarantee 'stabilize only after the back "
+        "link is in place' plus: every write of a link word continues the link's tag -- node_cas stub of deque.c for stabilize, unit "
+        "deque.alloc.link_tags for alloc_node and the link stores of push_left/push_right; that unit FAILS on deque.hpp as written "
+        "(known finding C17-deque-aba: tags reset when a node is recycled) -- plus no wrap-around of the 16-bit tag)",
+        "A-OWN (VX_ASSUME in alloc_node / interfere): pool_.allocate() returns a node that is referenced by neither the anchor nor any "
+        "node link, and nobody else reads or writes it until the caller's publishing CAS (freelist correctness)",
+        "A-TYPESTABLE: node storage is a pool of 4 cells that stay valid memory for the whole call (caching freelist never returns memory "
+        "to the allocator while the deque lives); payload fields are written only when a node is constructed; pool_.deallocate() makes "
+        "the payload of the retired node arbitrary (immediate reuse)",
+        "alloc_node is a stub (allocation never fails; std::bad_alloc propagating out of push before any shared access is not modelled); "
+        "deque_node destructor call is a no-op stub",
+        "reference parameter `anchor_pair& lrs` of stabilize* lowered to a pointer (`#define lrs (*lrs_ref)` around the three bodies); the "
+        "call shape `stabilize_x(v); return <literal>;` is lowered copy-in (v is dead afterwards) because CBMC's dfcc rejects writes to a "
+        "loop-body local from a loop-exit block",
+        "deque.pop_*/push_*: calls to stabilize / stabilize_left / stabilize_right replaced by their contracts (proved by units "
+        "deque.stabilize, deque.stabilize_left, deque.stabilize_right)",
+    ],
+    "assumptions": [
+        "A-ABA, A-ABA-node, A-OWN, A-TYPESTABLE as listed under trusted_base (deque units only)",
+        "deque.lemma.steps quantifies over all heaps of at most 4 nodes; the extension to longer chains is the list-segment framing "
+        "argument (no step touches a node other than the two end nodes, their inward neighbours and the caller's new node): paper",
+        "A-CLOSED(deque): anchor_ and node links are written only by push_left/push_right/pop_left/pop_right/stabilize_left/stabilize_right "
+        "and the node constructor (census of deque.hpp by reading; the destructor is documented not thread-safe and only calls pop_left)",
+    ],
+    "not_decided": [
+        "Michael's deque, protocol level: linearizability of the whole deque under arbitrary concurrency (that the per-step guarantees, "
+        "under the stated rely, compose into 'every element put in is taken out at most once / exactly once after a drain') is NOT proved; "
+        "decided are only the step contracts (each successful CAS of each function is one of Michael's transitions, taken from the right "
+        "state, with the right node retired once), the invariant-preservation lemmas on heaps of <= 4 nodes, and a bounded sequential stand-in",
+        "ABA-tag sufficiency: the 16-bit anchor tag and the 16-bit node-link tags are ASSUMED sufficient (A-ABA, A-ABA-node); wrap-around "
+        "after 2^16 steps is not analysed.  OBSERVED (native scripted interleaving on the real header: findings/C17-deque-aba/run.sh; "
+        "as an obligation: unit deque.alloc.link_tags, which fails on the current tree and proves with findings/C17-deque-aba/repair.diff): "
+        "A-ABA-node does NOT hold for deque.hpp as written -- alloc_node placement-news a recycled node with link tags 0 and "
+        "push_left/push_right store node_pointer(ptr) with tag 0, so a stabilize_right/left paused before its node-level CAS can succeed "
+        "on the recycled neighbour (same (ptr, tag) word again), corrupting an interior link: one element lost, another delivered "
+        "twice.  The step contracts hold regardless (each step is still a Michael transition); the defect lives exactly in the part "
+        "listed here as not decided",
+        "freelist reuse / memory reclamation: caching_freelist / static_freelist (freelist.hpp) are not under contract; that a node handed to "
+        "dealloc_node is not still being read by a slow thread (which then sees recycled contents), and that allocate() never returns a node "
+        "still reachable, are assumed (A-OWN, A-TYPESTABLE); a stale node-level CAS landing in a recycled node is excluded only by A-ABA-node",
+        "memory orders: all atomics are treated as sequentially consistent (the relaxed anchor loads, acquire link loads and the default "
+        "seq_cst stores/CASes of deque.hpp are not distinguished)",
+        "progress (lock-freedom), the destructor, is_lock_free, the copy-push overload set of alloc_node, and the static_freelist variant",
+    ],
 }
